@@ -4,6 +4,7 @@ import (
 	"fmt"
 	sdk "github.com/cosmos/cosmos-sdk/types"
 	sdkerrors "github.com/cosmos/cosmos-sdk/types/errors"
+	undtypes "github.com/unification-com/mainchain/types"
 	"github.com/unification-com/mainchain/x/wrkchain/exported"
 	"github.com/unification-com/mainchain/x/wrkchain/types"
 )
@@ -82,7 +83,7 @@ func (wfd CorrectWrkChainFeeDecorator) AnteHandle(ctx sdk.Context, tx sdk.Tx, si
 }
 
 func checkWrkChainMaxSlots(ctx sdk.Context, tx sdk.FeeTx, wck WrkchainKeeper) error {
-	msgs := tx.GetMsgs()
+	msgs := undtypes.UnwrapMsgs(tx.GetMsgs())
 
 	type b struct {
 		max  uint64
@@ -120,7 +121,7 @@ func checkWrkChainMaxSlots(ctx sdk.Context, tx sdk.FeeTx, wck WrkchainKeeper) er
 }
 
 func checkWrkchainFees(ctx sdk.Context, tx sdk.FeeTx, wck WrkchainKeeper) error {
-	msgs := tx.GetMsgs()
+	msgs := undtypes.UnwrapMsgs(tx.GetMsgs())
 	numMsgs := 0
 	expectedFees := wck.GetZeroFeeAsCoin(ctx)
 	expectedFeeDenom := wck.GetParamDenom(ctx)
